@@ -100,10 +100,16 @@ fn split_prefixes_inside_connections(rep: &Report) -> u64 {
             common::machinery(&format!("C09: the undisturbed exchange with a big serverbound frame did not end in a Transfer: {:?} {:?}", clean.kinds(), clean.result));
         }
         // the offsets at which the last two client frames start: read off the frames the client model recorded
-        let total = clean.emitted;
-        let big_len = codec::frame(2, &W::new().string("minecraft:register").raw(&[0x61; 200]).done()).len();
-        let ci_len = codec::sb_client_information(&"l".repeat(140)).len();
-        let starts = [total - big_len, total - big_len - ci_len];
+        // (what the client model recorded: offset and length of everything it sent; the two frames with a two-byte
+        // length prefix are the only ones of 128 bytes or more)
+        let mut starts: Vec<usize> = clean.sb_frames.iter().filter(|f| f.1 >= 130).map(|f| f.0).collect();
+        // (the Encryption Response is the third such frame; it is exchanged before any routing and is C08's business)
+        if starts.len() == 3 {
+            starts.remove(0);
+        }
+        if starts.len() != 2 {
+            common::machinery(&format!("C09: expected two big serverbound frames in the exchange, found {:?}", clean.sb_frames));
+        }
         let first_answer = lat.iter().copied().find(|l| *l > 0).unwrap_or(0);
         for start in starts {
             for k in 1..=4usize {
